@@ -326,3 +326,21 @@ func (b *BV) OrReduce() Poly {
 	}
 	return r
 }
+
+// Restrict sets the given variables to 0.
+func Restrict(p Poly, zero map[int]bool) Poly {
+	out := Poly{}
+	for m := range p {
+		keep := true
+		for _, v := range m.Vars() {
+			if zero[v] {
+				keep = false
+				break
+			}
+		}
+		if keep {
+			out[m] = struct{}{}
+		}
+	}
+	return out
+}
